@@ -11,7 +11,7 @@ T = {
  "C01": ("exploration", "6 C01 + 13.1", "bounded exhaustive exploration: all (key, message) tuples within one deviation of a default over boundary alphabets (bit-length sweep, all-ones, leading-byte-of-p encodings, own-pk and >64 KiB messages) x 3 suites, each case a short call history; rejected keys/types enumerated completely",
          "Every (suite, key, message) of the stated alphabet is signed and verified by the real code; rejected keys/types enumerated completely. Complete over the alphabet, not over all 2^255 keys.",
          "alphabets of DESIGN 6/C01; ladder correctness for all scalars is covered on small curves by C07"),
- "C02": ("exploration", "6 C02 + 13.1", "bounded exhaustive enumeration of model-built candidate signatures (other key/message/suite/tag, -S, 2S, S+torsion, re-encodings, bit flips) as histories (honest signature first and last) with an analytic oracle",
+ "C02": ("exploration", "6 C02 + 13.1", "bounded exhaustive enumeration of model-built candidate signatures (other key/message/suite/tag, -S, 2S, S+torsion, re-encodings, bit flips) as histories (honest signature first and last, refused strings presented twice, caller-chosen tags) with an analytic oracle",
          "Verify/PopVerify run on every member of the candidate domain; expected verdict = byte equality with an independent model signature.",
          "independent BLS model (mc.model.bls) anchored to published vectors"),
  "C03": ("model_checking", "6 C03 + 13.1", "explicit-state exploration of aggregation states (multisets of (signer,message) incl. coincident and cancelling signers), every permutation/grouping, every single-element deviation and cross-suite histories, lock-step with a formal-vector reference model",
@@ -38,10 +38,10 @@ T = {
  "C10": ("exploration", "6 C10", "exhaustive grid of field elements u (all small-norm u, exceptional and special u, every square-root branch) and complete message x tag x hash product against a straight-line RFC 9380 model",
          "map_to_curve on a complete grid with measured branch coverage; hash_to_G1/G2 on the full product; subgroup membership by the ec model.",
          "h2c model anchored to RFC 9380 vectors; golden isogeny constants validated algebraically"),
- "C11": ("exploration", "6 C11", "exhaustive enumeration of flag combinations x coordinate classes x second-word classes and of special points in every representative, against a ZCash-format model",
+ "C11": ("exploration", "6 C11", "exhaustive enumeration of flag combinations x coordinate classes x second-word classes and of special points in every representative, against a ZCash-format model; decoder call histories (words with equal hash(), anchors decoded again after up to n distinct encodings)",
          "Both directions of the codec on complete class products; accepted words must re-compress to themselves.",
          "zcash model"),
- "C12": ("exploration", "6 C12", "exhaustive comparison of reference and optimized pairings on whole tiny groups (loader) and on scalar alphabets at full size; all multisets of Miller values up to the bound",
+ "C12": ("exploration", "6 C12", "exhaustive comparison of reference and optimized pairings on whole tiny groups (loader) and on scalar alphabets at full size; all multisets of Miller values up to the bound; long pairing histories (anchors again after n distinct pairings)",
          "Coefficient equality reference vs optimized; split final exponentiation and Frobenius shortcut vs plain powers.",
          "zp model for plain powers"),
  "C13": ("model_checking", "6 C13", "exhaustive enumeration of all coordinate tuples GF(p)^6 / GF(p)^3 per control path on small fields (decides the polynomial identities by root counting), against the affine law",
@@ -61,7 +61,7 @@ T = {
          "secp256k1 add/multiply vs the affine model on complete small groups.", "ec model; SEC 2 constants"),
  "C19": ("model_checking", "6 C19", "exhaustive enumeration of every (v, r, s, z) on tiny curves (loader) + complete alphabet product at full size against the recovery algebra",
          "ecdsa_raw_recover outcome (point or ValueError) vs model on every tuple.", "ecdsa model"),
- "C20": ("model_checking", "6 C20 + 13.1", "explicit-state exploration of call histories over a 150-operation alphabet: every operation alone in a fresh interpreter, adjacent ordered pairs, total orders, systematically generated one-argument-perturbed neighbour calls; canonical snapshot of constants, argument snapshots and result equality with the fresh interpreter after every call",
+ "C20": ("model_checking", "6 C20 + 13.1", "explicit-state exploration of call histories over a 150-operation alphabet: every operation alone in a fresh interpreter, adjacent ordered pairs, total orders, systematically generated one-argument-perturbed neighbour calls, operation again after n distinct variant calls; canonical snapshot of constants, argument snapshots and result equality with the fresh interpreter after every call",
          "State = canonical snapshot of all py_ecc module and class data; every public operation is a transition; results compared with fresh-interpreter results.",
          "snapshot completeness is guarded by the pair/triple result comparison"),
 }
